@@ -230,14 +230,26 @@ fn run(case: &[u64]) -> Result<Vec<u64>, BadCase> {
             let cap = c.take()? as usize;
             let no = c.take()? as usize;
             let mut ops = Vec::new();
+            let mut vsegs: Vec<Vec<Vec<u8>>> = Vec::new();
             for _ in 0..no {
                 match c.take()? {
                     1 => ops.push((1, bytes_of(c.bytes()?))),
                     2 => ops.push((2, vec![])),
                     3 => ops.push((3, vec![])),
+                    4 => {
+                        // write_vectored: the segments, each length-prefixed
+                        let n = c.take()? as usize;
+                        let mut segs = Vec::new();
+                        for _ in 0..n {
+                            segs.push(bytes_of(c.bytes()?));
+                        }
+                        vsegs.push(segs);
+                        ops.push((4, vec![]));
+                    }
                     _ => return Err(BadCase),
                 }
             }
+            let mut vsegs = vsegs.into_iter();
             let ns = c.take()? as usize;
             let sched = c.sched(ns)?;
             let w = ScriptWriter::new(sched);
@@ -251,6 +263,11 @@ fn run(case: &[u64]) -> Result<Vec<u64>, BadCase> {
                     2 => {
                         let res = block_on(bw.flush());
                         enc_res(&mut out, &res, |_| 0);
+                    }
+                    4 => {
+                        let segs = vsegs.next().ok_or(BadCase)?;
+                        let BufResult(res, _) = block_on(bw.write_vectored(segs));
+                        enc_res(&mut out, &res, |n| *n as u64);
                     }
                     _ => {
                         let res = block_on(bw.shutdown());
